@@ -95,3 +95,35 @@ Definition doc_case (c : doc * list obs) : bool := obss_eqb (doc_units (fst c)) 
 Definition odt_case (c : odt * list obs) : bool := obss_eqb (odt_units (fst c)) (snd c).
 (* str.split() against CPython *)
 Definition split_case (c : str * list str) : bool := strs_eqb (split_ws (fst c)) (snd c).
+
+From S2T Require Import C03.Odf.
+
+Definition optstr_eqb (a : option str) (b : str) : bool :=
+  match a with Some x => str_eqb x b | None => str_eqb [] b end.
+
+Fixpoint odp_slides_eqb (a : list slide) (b : list (Z * str * list str * list str)) : bool :=
+  match a, b with
+  | [], [] => true
+  | sl :: a', (n, t, bd, ot) :: b' =>
+      Z.eqb (sl_number sl) n && optstr_eqb (sl_title sl) t && strs_eqb (sl_body sl) bd && strs_eqb (sl_other sl) ot
+      && odp_slides_eqb a' b'
+  | _, _ => false
+  end.
+
+(* read_odp on a parsed content.xml: (shape tree per draw:page, [(slide_number, title, body_text, other_text)],
+   units of the OdpContent) *)
+Definition odp_case (c : list (list shape) * list (Z * str * list str * list str) * list (Z * str)) : bool :=
+  let '(pages, slides, us) := c in
+  odp_slides_eqb (read_odp_slides pages) slides && units_eqb (odp_units (read_odp_slides pages)) us.
+
+Fixpoint sheets_eqb (a : list sheet) (b : list (str * str)) : bool :=
+  match a, b with
+  | [], [] => true
+  | sh :: a', (n, t) :: b' => str_eqb (sh_name sh) n && str_eqb (sh_text sh) t && sheets_eqb a' b'
+  | _, _ => false
+  end.
+
+(* read_ods on a parsed content.xml: (row tree per table:table, [(sheet.name, sheet.text)], units) *)
+Definition ods_case (c : list (str * list row_node) * list (str * str) * list (Z * str)) : bool :=
+  let '(tables, sheets, us) := c in
+  sheets_eqb (read_ods_sheets tables) sheets && units_eqb (ods_units (read_ods_sheets tables)) us.
